@@ -617,12 +617,6 @@ for _t, _f in (('trap2s', dict(sizes=[2, 2, 2], mono=[1, 1, 0], trap=[[0, 2, 1],
                ('mono33', dict(sizes=[3, 3], mono=[1, 1]))):
   for _s in SLICES:
     CONV.append(dict(_f, tag='%s@%s' % (_t, ''.join(map(str, _s))), free=_s, slice_iters=[2, 4]))
-# range dominance between dimensions of different sizes: 3- and 4-coordinate slices of the 6-weight kernel, N up to 8 (the full
-# 6-dimensional box is within the solver's reach only up to N=2)
-for _t, _f, _ss in (('rdom32', dict(sizes=[3, 2], mono=[1, 1], rdom=[[0, 1]], nearest=False), ([0, 1, 5], [0, 1, 4, 5], [1, 2, 3])),
-                    ('rdom23', dict(sizes=[2, 3], mono=[1, 1], rdom=[[0, 1]], nearest=False), ([0, 1, 2], [0, 1, 2, 5], [2, 3, 4]))):
-  for _s in _ss:
-    CONV.append(dict(_f, tag='%s@%s' % (_t, ''.join(map(str, _s))), free=_s, slice_iters=[4, 8]))
 
 
 
